@@ -3,6 +3,8 @@
 
 package nbhttp
 
+import "sort"
+
 // VerifCacheLen returns the number of unparsed bytes the parser retains.
 func (p *Parser) VerifCacheLen() int {
 	if p.bytesCached == nil {
@@ -13,3 +15,74 @@ func (p *Parser) VerifCacheLen() int {
 
 // VerifState returns the parser state number.
 func (p *Parser) VerifState() int { return int(p.state) }
+
+// ---- finite-domain functions tabulated by `hhttp facts` (DESIGN 2.4b)
+
+func VerifIsToken(c byte) bool           { return isToken(c) }
+func VerifIsHex(c byte) bool             { return isHex(c) }
+func VerifIsNum(c byte) bool             { return isNum(c) }
+func VerifIsAlpha(c byte) bool           { return isAlpha(c) }
+func VerifIsValidMethodChar(c byte) bool { return isValidMethodChar(c) }
+func VerifIsValidMethod(m string) bool   { return isValidMethod(m) }
+
+// VerifValidMethods returns the keys of validMethods that are true, sorted.
+func VerifValidMethods() []string {
+	var ms []string
+	for m, ok := range validMethods {
+		if ok {
+			ms = append(ms, m)
+		}
+	}
+	sort.Strings(ms)
+	return ms
+}
+
+// VerifStateEnum lists the parser state constants (name of the Lean constructor, Go constant, value)
+// in the order of the Lean inductive `Http.PState`.
+func VerifStateEnum() [][3]interface{} {
+	return [][3]interface{}{
+		{"close", "stateClose", int(stateClose)},
+		{"methodBefore", "stateMethodBefore", int(stateMethodBefore)},
+		{"method", "stateMethod", int(stateMethod)},
+		{"pathBefore", "statePathBefore", int(statePathBefore)},
+		{"path", "statePath", int(statePath)},
+		{"protoBefore", "stateProtoBefore", int(stateProtoBefore)},
+		{"proto", "stateProto", int(stateProto)},
+		{"protoLF", "stateProtoLF", int(stateProtoLF)},
+		{"clientProtoBefore", "stateClientProtoBefore", int(stateClientProtoBefore)},
+		{"clientProto", "stateClientProto", int(stateClientProto)},
+		{"statusCodeBefore", "stateStatusCodeBefore", int(stateStatusCodeBefore)},
+		{"statusCode", "stateStatusCode", int(stateStatusCode)},
+		{"statusBefore", "stateStatusBefore", int(stateStatusBefore)},
+		{"status", "stateStatus", int(stateStatus)},
+		{"statusLF", "stateStatusLF", int(stateStatusLF)},
+		{"headerKeyBefore", "stateHeaderKeyBefore", int(stateHeaderKeyBefore)},
+		{"headerValueLF", "stateHeaderValueLF", int(stateHeaderValueLF)},
+		{"headerKey", "stateHeaderKey", int(stateHeaderKey)},
+		{"headerValueBefore", "stateHeaderValueBefore", int(stateHeaderValueBefore)},
+		{"headerValue", "stateHeaderValue", int(stateHeaderValue)},
+		{"bodyContentLength", "stateBodyContentLength", int(stateBodyContentLength)},
+		{"headerOverLF", "stateHeaderOverLF", int(stateHeaderOverLF)},
+		{"chunkSizeBefore", "stateBodyChunkSizeBefore", int(stateBodyChunkSizeBefore)},
+		{"chunkSize", "stateBodyChunkSize", int(stateBodyChunkSize)},
+		{"chunkSizeLF", "stateBodyChunkSizeLF", int(stateBodyChunkSizeLF)},
+		{"chunkData", "stateBodyChunkData", int(stateBodyChunkData)},
+		{"chunkDataCR", "stateBodyChunkDataCR", int(stateBodyChunkDataCR)},
+		{"chunkDataLF", "stateBodyChunkDataLF", int(stateBodyChunkDataLF)},
+		{"trValueLF", "stateBodyTrailerHeaderValueLF", int(stateBodyTrailerHeaderValueLF)},
+		{"trKeyBefore", "stateBodyTrailerHeaderKeyBefore", int(stateBodyTrailerHeaderKeyBefore)},
+		{"trKey", "stateBodyTrailerHeaderKey", int(stateBodyTrailerHeaderKey)},
+		{"trValueBefore", "stateBodyTrailerHeaderValueBefore", int(stateBodyTrailerHeaderValueBefore)},
+		{"trValue", "stateBodyTrailerHeaderValue", int(stateBodyTrailerHeaderValue)},
+		{"tailCR", "stateTailCR", int(stateTailCR)},
+		{"tailLF", "stateTailLF", int(stateTailLF)},
+	}
+}
+
+// VerifHeaderNames returns the three framing header names the parser records.
+func VerifHeaderNames() [3]string {
+	return [3]string{transferEncodingHeader, trailerHeader, contentLengthHeader}
+}
+
+// VerifMaxInt is the parser's MaxInt constant.
+func VerifMaxInt() int64 { return MaxInt }
